@@ -168,4 +168,32 @@ theorem c11_lost_update_witness_as_written :
 example : (runLocked [5, 7] (init 2) [0, 1, 1, 0]).cur = 7 ∧ (runLocked [5, 7] (init 2) [0, 1, 1, 0]).master = some 1 := by
   decide
 
+/-! ### Table and reference counter (D20) -/
+
+open Gribi.Conc.RC in
+theorem rc_fireAtomic_ok (s : RC.St) (t : RC.Th) (h : Ok s) : Ok (fireAtomic s t) := by
+  unfold Ok at *
+  cases t <;> simp only [fireAtomic] <;> split <;> try exact h
+  · cases hp : s.present <;> simp_all
+  · cases hp : s.present <;> simp_all
+
+open Gribi.Conc.RC in
+/-- **C11 (counters under concurrency).** With each RIB-changing operation atomic (the transaction
+mutex, checked as a regenerated fact), every interleaving of a concurrent ADD and DELETE of a
+group leaves the next-hop's counter equal to its number of referrers. -/
+theorem c11_refcount_atomic (sched : List RC.Th) : Ok (runAtomic ({} : RC.St) sched) := by
+  have : ∀ (s : RC.St), Ok s → Ok (runAtomic s sched) := by
+    induction sched with
+    | nil => intro s h; exact h
+    | cons t rest ih => intro s h; exact ih _ (rc_fireAtomic_ok s t h)
+  exact this {} (by simp [Ok])
+
+open Gribi.Conc.RC in
+/-- **the defect found by this check (D20).** With the table change and the counter change as
+separate steps, the schedule ADD.install, DELETE.remove, DELETE.decrement, ADD.increment ends with
+the group gone and the counter at 1: the next-hop can never be deleted again. -/
+theorem c11_stale_counter_witness_as_written :
+    (runSplit ({} : RC.St) [.add, .del, .del, .add]).present = false ∧ (runSplit ({} : RC.St) [.add, .del, .del, .add]).cnt = 1 := by
+  decide
+
 end Gribi.C11
